@@ -62,6 +62,7 @@ type PMsg struct {
 	TMode int    `json:"tm"` // 0: max ever published + TV (TV >= 0); 1: absolute TV; 2: zero time (= now)
 	TV    int64  `json:"tv"`
 	Junk  int64  `json:"junk,omitempty"` // garbage the caller puts into Message.Offset
+	Pad   int64  `json:"pad,omitempty"`  // the value is Val followed by Pad zero bytes (messages beyond the 64 MiB the writers accept)
 }
 
 type OffSel struct {
